@@ -107,4 +107,9 @@ def cases(tier):
             out.append((b, 2, 7, False))
     out.append(("H", 3, 5, False))
     out.append((6, 1, 4, False))
-    return out
+    seen, uniq = set(), []
+    for c in out:
+        if c not in seen:
+            seen.add(c)
+            uniq.append(c)
+    return uniq
